@@ -123,11 +123,10 @@ def main(tier, seed, only=None):
     from harness import l2run
 
     def extra(rep):
-        try:
-            from harness import l1
-        except ImportError:
-            return
+        from harness import l1, c01_threads
         l1.soft_part(rep, tier)
+        c01_threads.part(rep, tier, only=('softscan',),
+                         name='thread-level-softscan-vs-result')
     return l2run.run('C06', tier, seed, configs(tier), [
         'the soft-limit signal reaches the worker process the job handle '
         'names; what it does there is decided by the L1 part'], only, extra)
@@ -137,5 +136,8 @@ def replay(rp):
     if rp.get('harness') == 'l1':
         from harness import l1
         return l1.replay(rp)
+    if rp.get('harness') == 'c01-threads':
+        from harness import c01_threads
+        return c01_threads.replay(rp)
     from harness import l2run
     return l2run.replay('C06', rp, configs('thorough') + configs('quick'))
